@@ -100,6 +100,14 @@ const _: () = {
     unsafe impl Sync for WakerList {}
 };
 
+#[cfg(futures_buffered_verif)]
+impl WakerList {
+    /// address of the shared block (verification only)
+    pub(crate) fn verif_base(&self) -> usize {
+        self.ptr.as_ptr() as usize
+    }
+}
+
 impl WakerList {
     fn slice_start(&self) -> *mut WakerItem {
         unsafe {
@@ -116,6 +124,8 @@ impl WakerList {
         let queue = unsafe { &*ptr::addr_of!((*self.ptr.as_ptr()).queue) };
         let slot = unsafe { self.slice_start().add(index) };
 
+        #[cfg(futures_buffered_verif)]
+        crate::verif::before_lock(&unsafe { &*slot }.wake_lock);
         let mut wake_lock = unsafe { &*slot }.wake_lock.lock();
         let prev = core::mem::replace(&mut *wake_lock, true);
 
@@ -154,9 +164,13 @@ impl WakerList {
     /// thread can call this) to be guaranteed elsewhere.
     pub(crate) unsafe fn pop(&self) -> ReadySlot<(usize, ManuallyDrop<Waker>)> {
         let queue = unsafe { &*ptr::addr_of!((*self.ptr.as_ptr()).queue) };
+        #[cfg(futures_buffered_verif)]
+        crate::verif::sched_point(crate::verif::Point::Pop);
         match unsafe { queue.try_dequeue_unchecked() } {
             Ok(slot) => {
                 let slot = unsafe { &*slot.as_ptr() };
+                #[cfg(futures_buffered_verif)]
+                crate::verif::before_lock(&slot.wake_lock);
                 *slot.wake_lock.lock() = false;
                 ReadySlot::Ready((slot.index, self.get(slot.index)))
             }
@@ -208,12 +222,22 @@ mod slot {
 
         // Increment the reference count of the arc to clone it.
         unsafe fn clone_waker(waker: *const ()) -> RawWaker {
+            #[cfg(futures_buffered_verif)]
+            crate::verif::probe(crate::verif::Probe::Vtable {
+                kind: crate::verif::VtableFn::Clone,
+                slot: waker as usize,
+            });
             unsafe { meta_ref(waker.cast()).inc_strong() };
             RawWaker::new(waker, VTABLE)
         }
 
         // We don't need ownership. Just wake_by_ref and drop the waker
         unsafe fn wake(waker: *const ()) {
+            #[cfg(futures_buffered_verif)]
+            crate::verif::probe(crate::verif::Probe::Vtable {
+                kind: crate::verif::VtableFn::Wake,
+                slot: waker as usize,
+            });
             unsafe {
                 wake_by_ref(waker);
                 drop_waker(waker);
@@ -223,10 +247,17 @@ mod slot {
         // Find the `WakerHeader` and push the current index value into it,
         // then call the stored waker to trigger a poll
         unsafe fn wake_by_ref(waker: *const ()) {
+            #[cfg(futures_buffered_verif)]
+            crate::verif::probe(crate::verif::Probe::Vtable {
+                kind: crate::verif::VtableFn::WakeByRef,
+                slot: waker as usize,
+            });
             let slot = waker.cast::<WakerItem>();
 
             let node = unsafe { &*slot };
 
+            #[cfg(futures_buffered_verif)]
+            crate::verif::before_lock(&node.wake_lock);
             let mut wake_lock = node.wake_lock.lock();
             let prev = core::mem::replace(&mut *wake_lock, true);
 
@@ -240,6 +271,11 @@ mod slot {
 
         // Decrement the reference count of the Arc on drop
         unsafe fn drop_waker(waker: *const ()) {
+            #[cfg(futures_buffered_verif)]
+            crate::verif::probe(crate::verif::Probe::Vtable {
+                kind: crate::verif::VtableFn::Drop,
+                slot: waker as usize,
+            });
             let meta = unsafe { meta_ref(waker.cast()) };
             if meta.dec_strong() {
                 unsafe {
@@ -266,6 +302,8 @@ impl WakerHeader {
         // another must already provide any required synchronization.
         //
         // [1]: (www.boost.org/doc/libs/1_55_0/doc/html/atomic/usage_examples.html)
+        #[cfg(futures_buffered_verif)]
+        crate::verif::sched_point(crate::verif::Point::IncStrong);
         let old_size = self.strong.fetch_add(1, Ordering::Relaxed);
 
         // However we need to guard against massive refcounts in case someone is `mem::forget`ing
@@ -286,6 +324,8 @@ impl WakerHeader {
         // Because `fetch_sub` is already atomic, we do not need to synchronize
         // with other threads unless we are going to delete the object. This
         // same logic applies to the below `fetch_sub` to the `weak` count.
+        #[cfg(futures_buffered_verif)]
+        crate::verif::sched_point(crate::verif::Point::DecStrong);
         let old_size = self.strong.fetch_sub(1, Ordering::Release);
         if old_size != 1 {
             return false;
@@ -319,6 +359,8 @@ impl WakerHeader {
         //
         // [1]: (www.boost.org/doc/libs/1_55_0/doc/html/atomic/usage_examples.html)
         // [2]: (https://github.com/rust-lang/rust/pull/41714)
+        #[cfg(futures_buffered_verif)]
+        crate::verif::sched_point(crate::verif::Point::Fence);
         atomic::fence(Ordering::Acquire);
         true
     }
@@ -361,6 +403,9 @@ fn slice_offset() -> usize {
 /// The pointer must point to a currently allocated [`WakerList`].
 unsafe fn drop_inner(p: *mut WakerHeader, capacity: usize) {
     let layout = WakerList::layout(capacity);
+
+    #[cfg(futures_buffered_verif)]
+    crate::verif::probe(crate::verif::Probe::BlockRelease { base: p as usize });
 
     // SAFETY: the pointer points to an aligned and init instance of `WakerHeader`
     unsafe { drop_in_place(p) };
@@ -432,6 +477,13 @@ impl WakerList {
                 },
             );
         }
+
+        #[cfg(futures_buffered_verif)]
+        crate::verif::probe(crate::verif::Probe::BlockAlloc {
+            base: ptr as usize,
+            size: arc_slice_layout.size(),
+            cap,
+        });
 
         Self {
             ptr: unsafe { NonNull::new_unchecked(meta) },
